@@ -445,3 +445,48 @@ pub fn birthday_case(ctx: &mut Ctx, which: u64) -> Option<(Ty, Vec<u8>)> {
     decode_oracle(ctx, ty, &bytes, "2^18 distinct labels", true);
     Some((ty, bytes))
 }
+
+
+/// Relation used by C09 (and by C02 for the retained bytes' sake): a recipient whose protected header
+/// holds a chain of 0-10 counter signatures must be accepted or rejected alike under 0-13 enclosing
+/// recipient layers of a COSE_recipient / COSE_Encrypt / COSE_Mac.  `idx` in 0..55: chain length x form.
+pub fn layering_relation_case(ctx: &mut Ctx, idx: u64) {
+                use crate::capi;
+                use crate::hostile;
+                use crate::model::Ty;
+                let c = (idx % 11) as usize;
+                let form = (idx / 11) as u8;
+                let chain = if c == 0 { vec![0xa1, 0x04, 0x41, 0x11] } else { hostile::b1_header(c, form) };
+                let mut verdicts: Vec<(usize, &'static str, bool)> = Vec::new();
+                for r in 0..=13usize {
+                    let rcp = hostile::b3_recipient(r, &chain);
+                    let mut enc = vec![0x84, 0x40, 0xa0, 0xf6, 0x81];
+                    enc.extend_from_slice(&rcp);
+                    let mut mac = vec![0x85, 0x40, 0xa0, 0x41, 0x00, 0x40, 0x81];
+                    mac.extend_from_slice(&rcp);
+                    for (ty, name, b) in [(Ty::Recipient, "COSE_recipient", &rcp), (Ty::Encrypt, "COSE_Encrypt", &enc), (Ty::Mac, "COSE_Mac", &mac)] {
+                        ctx.eval();
+                        ctx.nontrivial_bytes(b);
+                        match capi::from_slice(ty, b) {
+                            Ok(_) => verdicts.push((r, name, true)),
+                            Err(capi::EK::Panic(s)) => ctx.violation(&format!("{}/panic/{}", ctx.prop, s), format!("decoding panicked at {}", s), crate::json::J::obj(vec![("hex", crate::json::J::Str(crate::rcbor::hex(b)))])),
+                            Err(_) => verdicts.push((r, name, false)),
+                        }
+                    }
+                }
+                // reference: the same header on a recipient that nothing encloses
+                let base = verdicts.iter().find(|v| v.0 == 0 && v.1 == "COSE_recipient").map(|v| v.2);
+                if let Some(base) = base {
+                    ctx.count(if base { "layered-chain-accepted" } else { "layered-chain-rejected" });
+                    for (r, name, ok) in &verdicts {
+                        if *ok != base {
+                            ctx.violation(
+                                &format!("{}/recipient-layering-changes-acceptance/{}", ctx.prop, name),
+                                format!("a recipient whose protected header holds a chain of {} counter signature(s) (form {}) is {} on its own but {} when {} recipient layer(s) of a {} enclose it", c, form, if base { "accepted" } else { "rejected" }, if *ok { "accepted" } else { "rejected" }, r, name),
+                                crate::json::J::obj(vec![("chain_length", crate::json::J::UInt(c as u64)), ("layers", crate::json::J::UInt(*r as u64)), ("form", crate::json::J::UInt(form as u64))]),
+                            );
+                            break;
+                        }
+                    }
+                }
+            }
